@@ -111,6 +111,14 @@ func prepareDev(w *clih.Work, state string) error {
 		return w.Exec("dev.sqlite", "CREATE TABLE precious (id integer PRIMARY KEY, v text)", "INSERT INTO precious VALUES (1, 'keep me'), (2, NULL)")
 	case "view_only":
 		return w.Exec("dev.sqlite", "CREATE VIEW precious_view AS SELECT 1 AS one")
+	case "sqlite_prefixed_table":
+		// a user table whose name merely begins with "sqlite" (no underscore): not an internal table.
+		return w.Exec("dev.sqlite", "CREATE TABLE sqlitefoo (id integer PRIMARY KEY, v text)", "INSERT INTO sqlitefoo VALUES (1, 'keep me')")
+	case "fts_only":
+		// a full-text table: the user's data lives in a virtual table and its shadow tables only.
+		return w.Exec("dev.sqlite", "CREATE VIRTUAL TABLE notes USING fts4(body)", "INSERT INTO notes (body) VALUES ('keep me')")
+	case "rtree_only":
+		return w.Exec("dev.sqlite", "CREATE VIRTUAL TABLE places USING rtree(id, minx, maxx)", "INSERT INTO places VALUES (1, 0.0, 1.0)")
 	case "trigger_table":
 		return w.Exec("dev.sqlite", "CREATE TABLE precious (id integer)", "CREATE TABLE audit (id integer)", "CREATE TRIGGER trg AFTER INSERT ON precious BEGIN INSERT INTO audit VALUES (new.id); END", "INSERT INTO precious VALUES (5)")
 	}
@@ -252,7 +260,7 @@ func cases(tier string) []Case {
 	if tier == "thorough" {
 		shapes = append(shapes, []int{1}, []int{3}, []int{2, 2}, []int{1, 1, 1}, []int{3, 2, 1})
 	}
-	devs := []string{"empty", "table_rows", "view_only"}
+	devs := []string{"empty", "table_rows", "view_only", "fts_only", "rtree_only", "sqlite_prefixed_table"}
 	if tier == "thorough" {
 		devs = append(devs, "trigger_table")
 	}
@@ -318,7 +326,7 @@ func classify(c Case, problems []string) string {
 
 func Run(r *report.Run) {
 	defer clih.Cleanup()
-	r.Rule = "real CLI with a SQLite file as dev database: commands {migrate diff, migrate validate, migrate lint --latest N, schema apply --to file.sql / file.hcl, schema diff file.sql file.sql, schema inspect file.sql} x dev state {empty, table with rows, view only; thorough: table+trigger} x migration directory / schema file shapes (tables, indexes, views and triggers) with, at every position (and nowhere), a statement the engine rejects or one it accepts but atlas cannot inspect (the replay succeeds, reading the state back fails); dev database and directory read before/after by our own connection / file reads; non-trivial = every case; distinct = the case tuple"
+	r.Rule = "real CLI with a SQLite file as dev database: commands {migrate diff, migrate validate, migrate lint --latest N, schema apply --to file.sql / file.hcl, schema diff file.sql file.sql, schema inspect file.sql} x dev state {empty, table with rows, view only, FTS virtual table only, R*Tree virtual table only; thorough: table+trigger} x migration directory / schema file shapes (tables, indexes, views and triggers) with, at every position (and nowhere), a statement the engine rejects or one it accepts but atlas cannot inspect (the replay succeeds, reading the state back fails); dev database and directory read before/after by our own connection / file reads; non-trivial = every case; distinct = the case tuple"
 	r.Assumptions = []string{"`migrate diff` may add one file and rewrite atlas.sum when it succeeds; nothing else may change in the directory"}
 	cs := cases(r.Tier)
 	res := make([][]string, len(cs))
